@@ -10,6 +10,7 @@ from vh import lexer as LX
 
 def units(tier):
     cu = PG.corpus_units(tier, "diff_prog", stds=("both",))
+    cu = cu + rule_units(tier)
     if tier == "quick":
         return PG.program_units(tier, "diff_prog", stds=("both",), ics=(True,)) + cu
     return PG.program_units(tier, "diff_prog", stds=("both",), ics=(True, False), rotate=True) + cu
@@ -61,3 +62,64 @@ def diff_prog(ctx):
                     uses08 = True
             if not uses08:
                 ctx.check((a == b) if len(a) == len(b) else False, "str(parse08(P)) != str(parse03(P))")
+
+
+# test inputs of the repository that are not valid Fortran (they test sloppy acceptance); the f2008 class rejects them
+INVALID_INPUTS = [("Open_Stmt", "open(23, unit=24, file='hello')"), ("Open_Stmt", "open(23, file='hello', file='another')")]
+
+
+def rule_units(tier):
+    from sse import harvest
+    us = []
+    k = 0
+    for name, text in harvest.cls_pairs():
+        name = str(name)
+        text = str(text)
+        if name.startswith("Cpp_") or (name, text) in INVALID_INPUTS:
+            continue
+        pos = [i for i, ch in enumerate(text) if ch.isalnum()]
+        if not pos:
+            continue
+        step = max(1, len(pos) // 2) if tier == "quick" else max(1, len(pos) // 6)
+        for i in pos[::step][: (2 if tier == "quick" else 6)]:
+            k += 1
+            us.append(dict(h="diff_rule", cls=name, text=text, at=i, cost=1))
+    return us
+
+
+def diff_rule(ctx):
+    """rule-level differential on the repository's own test inputs (one letter/digit symbolic):
+    whatever the f2003 rule class accepts, the class the f2008 parser uses for the same rule
+    accepts too and prints the same text."""
+    p = ctx.p
+    C.reset()
+    from fparser.two import Fortran2003, Fortran2008
+    cname = api.text(p["cls"])
+    c3 = getattr(Fortran2003, cname, None)
+    c8 = getattr(Fortran2008, cname, None)
+    if c8 is None or str(c8.__module__).count(".") < 3:
+        c8 = c3       # only classes defined in a Fortran2008 rule module override the f2003 class
+    if c3 is None or not isinstance(c3, type) or not isinstance(c8, type):
+        ctx.check(True, "class not available under f2003")
+        return
+    text = p["text"]
+    i = p["at"]
+    ch = text[i]
+    dom = "digit" if ch.isdigit() else ("upper" if ch.isupper() else "lower")
+    s = text[:i] + ctx.chars("c", 1, dom) + text[i + 1:]
+    ctx.observe("s", s)
+    C.get_parser("f2003")
+    r3 = C.outcome(lambda: c3(s))
+    if r3[0] != "ok" or r3[1] is None:
+        ctx.check(True, "not accepted under f2003")
+        return
+    s3 = str(r3[1])
+    C.reset()
+    C.get_parser("f2008")
+    r8 = C.outcome(lambda: c8(s))
+    ok = r8[0] == "ok" and r8[1] is not None
+    ctx.check(ok, "rule %s: input accepted by the f2003 class is not accepted by the f2008 class" % cname)
+    if ok:
+        s8 = str(r8[1])
+        ctx.observe("s8", s8)
+        ctx.check((s3.lower() == s8.lower()) if len(s3) == len(s8) else False, "rule %s: f2008 class prints different text than the f2003 class" % cname)
